@@ -94,10 +94,10 @@ TEXT = {
         "level_note": 'trusted: reference splitter / slicer (30 lines). Mid-surrogate columns accept both readings.',
     },
     "C16": {
-        "technique": 'runtime schedule control: real threads on the real SourceView, interleaved at every lock/atomic operation through the verif_hooks wrappers (DFS with preemption bound + random schedules), free-running stress, Miri many-seeds and TSan; oracle = sequential answers, no panic, no deadlock, view usable afterwards',
+        "technique": 'runtime schedule control: real threads on the real SourceView, interleaved at every lock/atomic operation through the verif_hooks wrappers (DFS with preemption bound + random schedules), free-running stress, Miri many-seeds and TSan; oracle = sequential answers, no panic, no deadlock, no livelock under a fair schedule (logical step bound), view usable afterwards',
         "level_text": "exploration over schedules: 2 threads x 1 call for every pair of calls on 6 texts with all schedules of <= 3 preemptions (quick) / all schedules up to a cap of 20000 per scenario (thorough); sampled 2x2 and 3x1 scenarios with bounded enumeration; random schedules for up to 4 threads x 3 calls; free-running rounds of 2..8 threads; a Miri shard (8 seeds x 16 shards quick, 64 seeds thorough, weak-memory emulation, data-race detection, Stacked Borrows on the shared 'static slices) and a TSan build (thorough). Every call must return the reference answer, nothing may panic or deadlock, and a probe caller must get correct answers afterwards. Evidence records schedules executed, distinct schedules, distinct yield-point vectors and where preemptions happened.",
         "design_ref": "DESIGN.md section 5, C16",
-        "level_note": 'trusted: the controller (harness/src/sched.rs) and the hook wrappers in the crate (they delegate to the real std Mutex/AtomicUsize). A schedule is decided by logical steps; the only wall-clock element is a 60 s no-progress guard.',
+        "level_note": 'trusted: the controller (harness/src/sched.rs) and the hook wrappers in the crate (they delegate to the real std Mutex/AtomicUsize). A schedule is decided by logical steps (deadlock = no runnable worker; livelock = 20000 yield points under a fair continuation that hands over from a spin-waiting worker to the least recently scheduled one); wall-clock guards (60 s no progress, 120 s free-running round) only ever give INCONCLUSIVE. Validated against correct alternative implementations (selftest/controls) as well as against breaking changes.',
     },
     "C17": {
         "technique": "runtime monitor: reference reverse-walk resolver with hard-coded identifier tables vs get_original_function_name on SourceMap / single-section index / DecodedMap over generated minified programs; second reference recognises the one known deviation for index sections; Miri + ASan repeats",
